@@ -23,3 +23,30 @@ package querystring
 //@   at call 0 of RequestWhenFalse before assert[else-branch-request-side-from-else] self == f.Filter && arg0 == em.reqmod
 //@   at call 0 of ResponseWhenFalse before assert[else-branch-response-side-from-else] self == f.Filter && arg0 == em.resmod
 //@   at call 0 of NewResult before assert[the-filter-is-offered-under-the-message-scope] arg0 == iface(f) && arg1 == msg.Scope
+
+// ---------------------------------------------------------------------------------------------
+// C13: the query-string verifier never counts requests to the proxy's own API (not even ones whose query does not
+// parse), records at most one error per request and reports nil iff nothing is recorded.
+//@ pred qsVerifierOK(v *verifier) = v != nil && v.err != nil && merrIdle(v.err) && tableIdle()
+//@ extern func (*http.Request).ParseForm
+//@   modifies http.Request.Form, http.Request.PostForm
+//@ func (*verifier).ModifyRequest
+//@   serves C13
+//@   requires qsVerifierOK(v) && req != nil && linked(req)
+//@   modifies v.err.errs, v.err.errs[*], v.err.mu.wheld, martian.ctxmu.rheld, sync.RWMutex.rheld, http.Request.Form, http.Request.PostForm
+//@   noframe
+//@   ensures[api-requests-never-counted] apiMarked(req) ==> len(v.err.errs) == old(len(v.err.errs))
+//@   ensures[at-most-one-error-per-request] len(v.err.errs) == old(len(v.err.errs)) || len(v.err.errs) == old(len(v.err.errs)) + 1
+//@   ensures result == nil && qsVerifierOK(v)
+//@   loop 0 invariant qsVerifierOK(v) && len(v.err.errs) == old(len(v.err.errs))
+//@ func (*verifier).VerifyRequests
+//@   serves C13
+//@   requires qsVerifierOK(v)
+//@   modifies v.err.mu.rheld
+//@   ensures[nil-iff-nothing-recorded] (result == nil) == (len(v.err.errs) == 0)
+//@   ensures[reports-the-recorded-list] result != nil ==> result == v.err
+//@ func (*verifier).ResetRequestVerifications
+//@   serves C13
+//@   requires v != nil
+//@   modifies v.err
+//@   ensures[reset-forgets-everything] v.err != nil && len(v.err.errs) == 0 && merrIdle(v.err)
